@@ -122,6 +122,17 @@ def lemma_rfcomm_fields(frame_type, c_r, dlci, p_f, information, with_credits):
     assert 4 * ((b[0] // 4) % 64) + 2 * ((b[0] // 2) % 2) + 1 == b[0]
     assert (b[1] & 0xEF) + 16 * ((b[1] // 16) % 2) == b[1]
     assert (b[1] & 0xEF) == frame_type
+    # (proof hints: a frame rebuilt from the decoded fields has the same length indicator and hence the same FCS input)
+    h = rfcomm.RFCOMM_Frame(frame_type, c_r, dlci, p_f, b[3:-1] if n <= 127 else b[4:-1], with_credits)
+    assert h.address == f.address and h.control == f.control
+    assert h.length == f.length
+    assert h.fcs == f.fcs
+    d2 = (b[0] >> 2) & 0x3F
+    c2 = (b[0] >> 1) & 0x01
+    p2 = (b[1] >> 4) & 0x01
+    assert d2 == dlci and c2 == c_r and p2 == p_f
+    assert ((d2 << 2) | (c2 << 1) | 1) == b[0]
+    assert ((b[1] & 0xEF) | (p2 << 4)) == b[1]
     g = rfcomm.RFCOMM_Frame.from_bytes(b)
     assert g.type == frame_type and g.c_r == c_r and g.dlci == dlci and g.p_f == p_f
     assert g.information == information
